@@ -85,6 +85,18 @@ def gen_hists(seed, tier):
                 h["calls"].append(dict(m="readcapacity16", pos=[], kw=rng.choice([{}, dict(alloclen=12), dict(alloclen=32), dict(alloclen=40)])))
             else:
                 h["calls"].append(dict(m="inquiry", pos=[], kw=rng.choice([{}, dict(alloclen=36), dict(alloclen=5)])))
+        # overwrite with zeros: the payload whose bytes are all zero is still a payload (stale data must not survive)
+        if rng.random() < 0.45 and nblk >= 2:
+            f = rng.choice(["10", "12", "16"])
+            lba = pick_lba(f, 2)
+            lba = min(lba, nblk - 2)
+            if lba < (1 << LBA_BITS[f]) - 2:
+                h["calls"].append(dict(m="write" + f, pos=[lba, 2, dict(b=[rng.randrange(1, 256) for _ in range(2 * bs)])], kw={}))
+                if rng.random() < 0.5:
+                    h["calls"].append(dict(m="write" + rng.choice(["10", "12", "16"]), pos=[lba, 1, dict(b=[0] * bs)], kw={}))
+                else:
+                    h["calls"].append(dict(m="writesame" + rng.choice(["10", "16"]), pos=[lba + 1, 1, dict(b=[0] * bs)], kw={}))
+                h["calls"].append(dict(m="read" + f, pos=[lba, 2], kw={}))
         # the malformed stream: requests the medium or the command form cannot satisfy
         if rng.random() < 0.5:
             bad = rng.choice([
